@@ -634,3 +634,680 @@ Proof.
   { rewrite Ed. destruct neg; cbn [app]; [apply candidates_neg_digits | apply candidates_digits]; assumption. }
   rewrite Hbest. rewrite app_assoc, consumed_app. rewrite Himpl. cbn [oc_opt option_map]. rewrite Hev. reflexivity.
 Qed.
+
+(* ------------------------------------------------------------------ *)
+(** * Comments *)
+
+Definition strip_cr (acc : inp) : inp :=
+  match acc with a :: acc' => if a =? 13 then rev acc' else rev acc | [] => [] end.
+
+Lemma line_comment_reads t rest acc : forallb (fun c => negb (c =? 10)) t = true ->
+  line_comment (t ++ 10 :: rest) acc = Some (strip_cr (rev t ++ acc), rest).
+Proof.
+  revert acc. induction t as [|c t IH]; intros acc H; cbn [app line_comment].
+  - change (10 =? 10) with true. reflexivity.
+  - cbn [forallb] in H. apply andb_true_iff in H as [Hc Ht]. apply negb_true_iff in Hc. rewrite Hc.
+    rewrite IH by exact Ht. cbn [rev]. rewrite <- app_assoc. reflexivity.
+Qed.
+
+(* a single-line comment the text form can carry: no line feed, no carriage return at the end *)
+Definition line_ok (t : inp) : bool :=
+  forallb (fun c => negb (c =? 10)) t && negb (match rev t with a :: _ => a =? 13 | [] => false end).
+
+Lemma line_comment_ok t rest : line_ok t = true -> line_comment (t ++ 10 :: rest) [] = Some (t, rest).
+Proof.
+  unfold line_ok. intro H. apply andb_true_iff in H as [H1 H2]. rewrite line_comment_reads by exact H1.
+  rewrite app_nil_r. unfold strip_cr. destruct (rev t) as [|a r] eqn:E.
+  - apply (f_equal (@rev N)) in E. rewrite rev_involutive in E. subst. reflexivity.
+  - apply negb_true_iff in H2. rewrite H2. rewrite <- E, rev_involutive. reflexivity.
+Qed.
+
+(* a multi-line comment the text form can carry: scanning the text never sees an opener or a closer,
+   and the text does not end with a slash (which would pair up with the closing delimiter) *)
+Fixpoint blk_plain (p : pend) (t : inp) : bool :=
+  match t with
+  | [] => match p with PSlash => false | _ => true end
+  | c :: r =>
+    match p with
+    | PSlash => if c =? 42 then false else blk_plain (if c =? 47 then PSlash else PNone) r
+    | PStar => if c =? 47 then false else blk_plain (if c =? 42 then PStar else PNone) r
+    | PNone => blk_plain (if c =? 47 then PSlash else if c =? 42 then PStar else PNone) r
+    end
+  end.
+
+Lemma block_comment_reads t : forall p acc rest, blk_plain p t = true ->
+  block_comment (t ++ 42 :: 47 :: rest) O p acc = Some (rev acc ++ t, rest).
+Proof.
+  induction t as [|c t IH]; intros p acc rest H.
+  - cbn [app]. destruct p; cbn in H; try discriminate.
+    + cbn [block_comment]. change (42 =? 47) with false. change (42 =? 42) with true. cbv iota.
+      change (47 =? 47) with true. cbv iota. cbn [tl]. rewrite app_nil_r. reflexivity.
+    + cbn [block_comment]. change (42 =? 47) with false. change (42 =? 42) with true. cbv iota.
+      change (47 =? 47) with true. cbv iota. cbn [tl]. rewrite app_nil_r. reflexivity.
+  - cbn [app block_comment]. cbn [blk_plain] in H. destruct p.
+    + rewrite IH by exact H. cbn [rev]. rewrite <- app_assoc. reflexivity.
+    + destruct (c =? 42); [discriminate|]. rewrite IH by exact H. cbn [rev]. rewrite <- app_assoc. reflexivity.
+    + destruct (c =? 47); [discriminate|]. rewrite IH by exact H. cbn [rev]. rewrite <- app_assoc. reflexivity.
+Qed.
+
+(* a readable sufficient condition *)
+Example blk_plain_examples :
+  blk_plain PNone [97; 32; 42; 32; 47; 32; 98] = true /\ blk_plain PNone [42; 42; 97; 42] = true /\
+  blk_plain PNone [97; 47] = false /\ blk_plain PNone [97; 42; 47; 98] = false /\ blk_plain PNone [47; 42] = false.
+Proof. repeat split. Qed.
+
+(* ------------------------------------------------------------------ *)
+(** * Documents as trees: the fragment of the structure theorem
+
+   null, booleans, integers of every size and sign (all three scalar integer events), strings,
+   lists and maps nested to any depth, comments of both kinds between the items of a list and
+   between the pairs of a map.  [VPair] and [VCom] are items, not values; [wf] says where they may stand. *)
+
+Inductive tree :=
+| VNull | VBool (b : bool) | VPos (n : N) | VNeg (n : N) | VInt (z : Z) | VStr (rs : list N)
+| VCom (multi : bool) (rs : list N)
+| VPair (k v : tree)
+| VList (l : list tree) | VMap (l : list tree).
+
+Section tree_induction.
+  Variable P : tree -> Prop.
+  Hypotheses (Hnull : P VNull) (Hbool : forall b, P (VBool b)) (Hpos : forall n, P (VPos n)) (Hneg : forall n, P (VNeg n))
+             (Hint : forall z, P (VInt z)) (Hstr : forall rs, P (VStr rs)) (Hcom : forall m rs, P (VCom m rs))
+             (Hpair : forall k v, P k -> P v -> P (VPair k v))
+             (Hlist : forall l, Forall P l -> P (VList l)) (Hmap : forall l, Forall P l -> P (VMap l)).
+  Fixpoint tree_induction (t : tree) : P t :=
+    match t with
+    | VNull => Hnull | VBool b => Hbool b | VPos n => Hpos n | VNeg n => Hneg n | VInt z => Hint z
+    | VStr rs => Hstr rs | VCom m rs => Hcom m rs
+    | VPair k v => Hpair k v (tree_induction k) (tree_induction v)
+    | VList l => Hlist l ((fix go (l : list tree) : Forall P l :=
+                             match l with [] => Forall_nil P | x :: r => Forall_cons x (tree_induction x) (go r) end) l)
+    | VMap l => Hmap l ((fix go (l : list tree) : Forall P l :=
+                           match l with [] => Forall_nil P | x :: r => Forall_cons x (tree_induction x) (go r) end) l)
+    end.
+End tree_induction.
+
+Definition is_value (t : tree) : bool := match t with VCom _ _ | VPair _ _ => false | _ => true end.
+Definition is_com (t : tree) : bool := match t with VCom _ _ => true | _ => false end.
+Definition is_pair (t : tree) : bool := match t with VPair _ _ => true | _ => false end.
+Definition is_lc (t : tree) : bool := match t with VCom false _ => true | _ => false end.
+
+Definition scalars (rs : list N) : Prop := Forall scalar rs.
+
+Fixpoint wf (t : tree) : Prop :=
+  match t with
+  | VStr rs => scalars rs
+  | VCom multi rs => scalars rs /\ (if multi then blk_plain PNone rs = true else line_ok rs = true)
+  | VPair k v => wf k /\ wf v /\ is_value k = true /\ is_value v = true
+  | VInt z => (- 2 ^ 63 <= z < 2 ^ 63)%Z
+  | VList l => (fix all (l : list tree) : Prop := match l with [] => True | x :: r => (wf x /\ is_pair x = false) /\ all r end) l
+  | VMap l => (fix all (l : list tree) : Prop := match l with [] => True | x :: r => (wf x /\ is_value x = false) /\ all r end) l
+  | _ => True
+  end.
+
+Lemma wf_list l : wf (VList l) <-> Forall (fun x => wf x /\ is_pair x = false) l.
+Proof. induction l as [|x r IH]; [split; constructor|]. split; intro H.
+  - destruct H as [H1 H2]. constructor; [exact H1|]. apply IH, H2.
+  - inversion H; subst. split; [assumption|]. apply IH. assumption. Qed.
+Lemma wf_map l : wf (VMap l) <-> Forall (fun x => wf x /\ is_value x = false) l.
+Proof. induction l as [|x r IH]; [split; constructor|]. split; intro H.
+  - destruct H as [H1 H2]. constructor; [exact H1|]. apply IH, H2.
+  - inversion H; subst. split; [assumption|]. apply IH. assumption. Qed.
+
+Definition str_bytes (rs : list N) : bytes := CteLit.utf8_str rs.
+
+(* the events handed to the encoder *)
+Fixpoint events_of (t : tree) : list event :=
+  match t with
+  | VNull => [ENull] | VBool b => [EBool b] | VPos n => [EPosInt n] | VNeg n => [ENegInt n] | VInt z => [EInt z]
+  | VStr rs => [EArray AT_String (N.of_nat (length (str_bytes rs))) (str_bytes rs)]
+  | VCom m rs => [EComment m (str_bytes rs)]
+  | VPair k v => events_of k ++ events_of v
+  | VList l => EList :: flat_map events_of l ++ [EEnd]
+  | VMap l => EMap :: flat_map events_of l ++ [EEnd]
+  end.
+
+(* the events the reader reports *)
+Definition rd_z (z : Z) : event := rd_int (z <? 0)%Z (Z.abs_N z).
+Fixpoint rd_events (t : tree) : list event :=
+  match t with
+  | VNull => [ENull] | VBool b => [EBool b] | VPos n => [rd_int false n] | VNeg n => [rd_int true n] | VInt z => [rd_z z]
+  | VStr rs => [EArray AT_String (N.of_nat (length (str_bytes rs))) (str_bytes rs)]
+  | VCom m rs => [EComment m (str_bytes rs)]
+  | VPair k v => rd_events k ++ rd_events v
+  | VList l => EList :: flat_map rd_events l ++ [EEnd]
+  | VMap l => EMap :: flat_map rd_events l ++ [EEnd]
+  end.
+
+(* ---- the layout the encoder gives such a tree ---- *)
+
+Definition spaces (k : N) : inp := repeat 32 (N.to_nat k).
+Definition nl (k : N) : inp := 10 :: spaces k.
+Definition int_text (neg : bool) (n : N) : inp := (if neg then [45] else []) ++ CteEnc.dec n.
+Definition z_text (z : Z) : inp :=
+  if (0 <=? z)%Z then CteEnc.dec (Z.to_N z) else 45 :: CteEnc.dec (Z.to_N (- z) mod 2 ^ 64).
+
+Section Printer.
+  (* how string contents and comment texts are rendered: as bytes, or as the code points of those bytes *)
+  Variables (fs fc : list N -> list N).
+  Fixpoint gp (ind : N) (t : tree) : list N :=
+    match t with
+    | VNull => CteEnc.t_null
+    | VBool b => if b then CteEnc.t_true else CteEnc.t_false
+    | VPos n => int_text false n
+    | VNeg n => int_text true n
+    | VInt z => z_text z
+    | VStr rs => 34 :: fs rs ++ [34]
+    | VCom false rs => 47 :: 47 :: fc rs
+    | VCom true rs => 47 :: 42 :: fc rs ++ [42; 47]
+    | VPair k v => gp ind k ++ [32; 61; 32] ++ gp ind v
+    | VList l => 91 :: flat_map (fun x => nl (ind + 4) ++ gp (ind + 4) x) l ++ (match l with [] => [] | _ => nl ind end) ++ [93]
+    | VMap l => 123 :: flat_map (fun x => nl (ind + 4) ++ gp (ind + 4) x) l ++ (match l with [] => [] | _ => nl ind end) ++ [125]
+    end.
+End Printer.
+
+Definition pp : N -> tree -> bytes := gp qbytes str_bytes.          (* the text *)
+Definition rp : N -> tree -> inp := gp qbody (fun rs => rs).         (* its code points *)
+
+Definition pp_doc (t : tree) : bytes := 99 :: 48 :: nl 0 ++ pp 0 t.
+Definition document (body : list event) : list event := EBeginDoc :: EVersion 0 :: body ++ [EEndDoc].
+
+(* ---- the code points of the text ---- *)
+
+Ltac ascii_tac := unfold ascii; repeat (first [apply Forall_nil | apply Forall_cons; [lia|]]).
+
+Lemma ascii_app a b : ascii a -> ascii b -> ascii (a ++ b).
+Proof. intros. apply Forall_app. split; assumption. Qed.
+
+Lemma ascii_spaces k : ascii (spaces k).
+Proof. unfold spaces, ascii. induction (N.to_nat k); cbn [repeat]; constructor; [lia|assumption]. Qed.
+Lemma ascii_nl k : ascii (nl k).
+Proof. unfold nl. constructor; [lia|apply ascii_spaces]. Qed.
+Lemma ascii_dec n : ascii (CteEnc.dec n).
+Proof. apply to_digits_ascii; lia. Qed.
+Lemma ascii_int_text neg n : ascii (int_text neg n).
+Proof. unfold int_text. apply ascii_app; [destruct neg; ascii_tac|apply ascii_dec]. Qed.
+Lemma ascii_z_text z : ascii (z_text z).
+Proof. unfold z_text. destruct (0 <=? z)%Z; [apply ascii_dec|]. constructor; [lia|apply ascii_dec]. Qed.
+
+Lemma runes_items k l (IH : Forall (fun t => wf t -> forall ind tail, runes (pp ind t ++ tail) = rp ind t ++ runes tail) l) :
+  Forall wf l -> forall tail,
+  runes (flat_map (fun x => nl k ++ pp k x) l ++ tail) = flat_map (fun x => nl k ++ rp k x) l ++ runes tail.
+Proof.
+  induction IH as [|x r Hx Hr IHr]; intros Hwf tail; [reflexivity|].
+  inversion Hwf; subst. cbn [flat_map]. rewrite <- !app_assoc.
+  rewrite runes_ascii_app by apply ascii_nl. rewrite Hx by assumption. rewrite IHr by assumption. reflexivity.
+Qed.
+
+Lemma runes_pp t : wf t -> forall ind tail, runes (pp ind t ++ tail) = rp ind t ++ runes tail.
+Proof.
+  induction t using tree_induction; intros Hwf ind tail; unfold pp, rp in *; cbn [gp].
+  - apply runes_ascii_app. unfold CteEnc.t_null. ascii_tac.
+  - destruct b; apply runes_ascii_app; [unfold CteEnc.t_true|unfold CteEnc.t_false]; ascii_tac.
+  - apply runes_ascii_app, ascii_int_text.
+  - apply runes_ascii_app, ascii_int_text.
+  - apply runes_ascii_app, ascii_z_text.
+  - cbn [app]. rewrite runes_ascii_cons by lia. rewrite <- app_assoc. cbn [wf] in Hwf.
+    rewrite runes_qbytes_app by exact Hwf. cbn [app]. rewrite runes_ascii_cons by lia. rewrite <- app_assoc. reflexivity.
+  - cbn [wf] in Hwf. destruct Hwf as [Hs _]. destruct m; cbn [app].
+    + rewrite !runes_ascii_cons by lia. rewrite <- app_assoc. unfold str_bytes. rewrite runes_utf8_str_app by exact Hs.
+      cbn [app]. rewrite !runes_ascii_cons by lia. rewrite <- app_assoc. reflexivity.
+    + rewrite !runes_ascii_cons by lia. unfold str_bytes. rewrite runes_utf8_str_app by exact Hs. reflexivity.
+  - cbn [wf] in Hwf. destruct Hwf as [Hk [Hv _]]. rewrite <- !app_assoc. rewrite IHt1 by exact Hk.
+    cbn [app]. rewrite !runes_ascii_cons by lia. rewrite IHt2 by exact Hv. reflexivity.
+  - apply wf_list in Hwf. assert (Hw : Forall wf l) by (eapply Forall_impl; [|exact Hwf]; intros a [Ha _]; exact Ha).
+    cbn [app]. rewrite runes_ascii_cons by lia. rewrite <- !app_assoc.
+    rewrite (runes_items _ _ H Hw). destruct l; cbn [app]; [rewrite runes_ascii_cons by lia; reflexivity|].
+    rewrite runes_ascii_app by apply ascii_nl. cbn [app]. rewrite runes_ascii_cons by lia. reflexivity.
+  - apply wf_map in Hwf. assert (Hw : Forall wf l) by (eapply Forall_impl; [|exact Hwf]; intros a [Ha _]; exact Ha).
+    cbn [app]. rewrite runes_ascii_cons by lia. rewrite <- !app_assoc.
+    rewrite (runes_items _ _ H Hw). destruct l; cbn [app]; [rewrite runes_ascii_cons by lia; reflexivity|].
+    rewrite runes_ascii_app by apply ascii_nl. cbn [app]. rewrite runes_ascii_cons by lia. reflexivity.
+Qed.
+
+(* ------------------------------------------------------------------ *)
+(** * From code points to tokens *)
+
+Definition cwp (ind : N) (p : bool) : list tok := if p && (ind =? 0) then [] else [TWs].
+Definition pfin (pend : bool) (l : list tree) : bool := match l with [] => pend | _ => is_lc (last l VNull) end.
+
+Fixpoint tk (ind : N) (t : tree) : list tok :=
+  match t with
+  | VNull => [TVal ENull] | VBool b => [TVal (EBool b)]
+  | VPos n => [TVal (rd_int false n)] | VNeg n => [TVal (rd_int true n)] | VInt z => [TVal (rd_z z)]
+  | VStr rs => [TVal (EArray AT_String (N.of_nat (length (str_bytes rs))) (str_bytes rs))]
+  | VCom m rs => [TComment m (str_bytes rs)]
+  | VPair k v => tk ind k ++ [TWs; TEq; TWs] ++ tk ind v
+  | VList l => TListB :: flat_map (fun x => TWs :: tk (ind + 4) x) l ++ (match l with [] => [] | _ => cwp ind (pfin false l) end) ++ [TListE]
+  | VMap l => TMapB :: flat_map (fun x => TWs :: tk (ind + 4) x) l ++ (match l with [] => [] | _ => cwp ind (pfin false l) end) ++ [TBraceE]
+  end.
+
+(* [ts] are the next tokens of [s], which leaves [rest]; every token consumes something *)
+Fixpoint lexes (ts : list tok) (s rest : inp) : Prop :=
+  match ts with
+  | [] => s = rest
+  | t :: ts' => exists mid, next_tok O s = Some (t, mid, O) /\ (length mid < length s)%nat /\ lexes ts' mid rest
+  end.
+
+Lemma lexes_app a b s m r : lexes a s m -> lexes b m r -> lexes (a ++ b) s r.
+Proof.
+  revert s. induction a as [|t a IH]; intros s Ha Hb; cbn [app lexes] in *; [subst; exact Hb|].
+  destruct Ha as [mid [H1 [H2 H3]]]. exists mid. split; [exact H1|]. split; [exact H2|]. apply IH; assumption.
+Qed.
+
+Lemma lexes_one t s r : next_tok O s = Some (t, r, O) -> (length r < length s)%nat -> lexes [t] s r.
+Proof. intros H1 H2. exists r. split; [exact H1|]. split; [exact H2|reflexivity]. Qed.
+
+Lemma lexes_length ts : forall s r, lexes ts s r -> (length ts + length r <= length s)%nat.
+Proof.
+  induction ts as [|t ts IH]; intros s r H; cbn [lexes length] in *; [subst; lia|].
+  destruct H as [mid [_ [H2 H3]]]. apply IH in H3. lia.
+Qed.
+
+Lemma lex_lexes ts : forall s r, lexes ts s r -> forall f, lex (length ts + f) O s = option_map (app ts) (lex f O r).
+Proof.
+  induction ts as [|t ts IH]; intros s r H f; cbn [lexes length] in *.
+  - subst. cbn [app plus]. destruct (lex f 0 r); reflexivity.
+  - destruct H as [mid [H1 [H2 H3]]]. cbn [plus lex]. destruct s as [|c s]; [cbn in H2; lia|].
+    rewrite H1. rewrite (IH _ _ H3 f). destruct (lex f 0 r); reflexivity.
+Qed.
+
+Definition nows (X : inp) : Prop := match X with [] => True | c :: _ => is_ws c = false end.
+
+Lemma span_spaces k X : nows X -> span is_ws (spaces k ++ X) = (spaces k, X).
+Proof.
+  intro H. apply span_all.
+  - unfold spaces. induction (N.to_nat k); [reflexivity|]. cbn [repeat forallb]. rewrite IHn. reflexivity.
+  - destruct X; [exact I|exact H].
+Qed.
+
+Lemma tok_nl k X : nows X -> next_tok O (nl k ++ X) = Some (TWs, X, O).
+Proof. intro H. unfold nl. cbn [app next_tok]. change (is_ws 10) with true. cbv iota. rewrite span_spaces by exact H. reflexivity. Qed.
+
+Lemma tok_spaces k X : 0 < k -> nows X -> next_tok O (spaces k ++ X) = Some (TWs, X, O).
+Proof.
+  intros Hk H. unfold spaces. destruct (N.to_nat k) as [|n] eqn:E; [lia|].
+  cbn [repeat app next_tok]. change (is_ws 32) with true. cbv iota.
+  change (repeat 32 n) with (spaces (N.of_nat n)) || idtac.
+  replace (repeat 32 n) with (spaces (N.of_nat n)) by (unfold spaces; rewrite Nat2N.id; reflexivity).
+  rewrite span_spaces by exact H. reflexivity.
+Qed.
+
+Lemma spaces_length k : length (spaces k) = N.to_nat k.
+Proof. unfold spaces. apply repeat_length. Qed.
+
+Lemma next_tok_word c s : (48 <= c <= 57 \/ c = 45) ->
+  next_tok O (c :: s) = match word_token (c :: s) with Some (t, rest) => Some (t, rest, O) | None => None end.
+Proof.
+  intro H. unfold next_tok, is_ws.
+  replace ((c =? 32) || (c =? 9) || (c =? 10) || (c =? 13)) with false by lia.
+  replace (c =? 47) with false by lia. replace (c =? 91) with false by lia. replace (c =? 93) with false by lia.
+  replace (c =? 123) with false by lia. replace (c =? 125) with false by lia. replace (c =? 61) with false by lia.
+  replace (c =? 40) with false by lia. replace (c =? 41) with false by lia. replace (c =? 62) with false by lia.
+  replace (c =? 34) with false by lia. replace (c =? 36) with false by lia. replace (c =? 38) with false by lia.
+  replace (c =? 64) with false by lia. reflexivity.
+Qed.
+
+Lemma int_text_head neg n : exists c r, int_text neg n = c :: r /\ (48 <= c <= 57 \/ c = 45).
+Proof.
+  unfold int_text. destruct neg; cbn [app].
+  - exists 45, (CteEnc.dec n). split; [reflexivity|lia].
+  - destruct (dec_dws n [] I) as [d [ds [E [Hd _]]]]. exists d, ds. split; [exact E|]. left. apply dec_facts, Hd.
+Qed.
+
+Lemma tok_int neg n rest : wsd rest -> next_tok O (int_text neg n ++ rest) = Some (TVal (rd_int neg n), rest, O).
+Proof.
+  intro Hw. destruct (int_text_head neg n) as [c [r [E Hc]]].
+  assert (Hword := word_token_dec neg n rest Hw).
+  assert (E2 : int_text neg n ++ rest = c :: (r ++ rest)) by (rewrite E; reflexivity).
+  rewrite E2, next_tok_word by exact Hc. rewrite <- E2. unfold int_text. rewrite <- app_assoc, Hword. reflexivity.
+Qed.
+
+Lemma z_text_int z : (- 2 ^ 63 <= z < 2 ^ 63)%Z -> z_text z = int_text (z <? 0)%Z (Z.abs_N z).
+Proof.
+  intro H. unfold z_text, int_text. destruct (Z.leb_spec 0 z).
+  - replace (z <? 0)%Z with false by lia. cbn [app]. f_equal. lia.
+  - replace (z <? 0)%Z with true by lia. cbn [app]. f_equal. f_equal. rewrite N.mod_small; lia.
+Qed.
+
+Lemma qbody_length rs : (length rs <= length (qbody rs))%nat.
+Proof.
+  induction rs as [|r rs IH]; [cbn; lia|]. unfold qbody in *. cbn [flat_map]. rewrite app_length. cbn [length].
+  assert (H := qrune_length r). lia.
+Qed.
+
+Lemma tok_str rs rest : scalars rs ->
+  next_tok O (34 :: qbody rs ++ 34 :: rest) = Some (TVal (EArray AT_String (N.of_nat (length (str_bytes rs))) (str_bytes rs)), rest, O).
+Proof.
+  intro Hs. cbn [next_tok]. change (is_ws 34) with false. cbv iota. change (34 =? 47) with false.
+  change (34 =? 91) with false. change (34 =? 93) with false. change (34 =? 123) with false. change (34 =? 125) with false.
+  change (34 =? 61) with false. change (34 =? 40) with false. change (34 =? 41) with false. change (34 =? 62) with false.
+  change (34 =? 34) with true. cbv iota. unfold lex_string.
+  rewrite lex_str_qbody; [reflexivity|exact Hs|].
+  rewrite app_length. cbn [length]. assert (H := qbody_length rs). lia.
+Qed.
+
+Lemma tok_line_comment rs rest : line_ok rs = true ->
+  next_tok O (47 :: 47 :: rs ++ 10 :: rest) = Some (TComment false (str_bytes rs), rest, O).
+Proof. intro H. cbn [next_tok]. change (is_ws 47) with false. cbv iota. change (47 =? 47) with true. cbv iota.
+  rewrite line_comment_ok by exact H. reflexivity. Qed.
+
+Lemma tok_block_comment rs rest : blk_plain PNone rs = true ->
+  next_tok O (47 :: 42 :: rs ++ 42 :: 47 :: rest) = Some (TComment true (str_bytes rs), rest, O).
+Proof. intro H. cbn [next_tok]. change (is_ws 47) with false. cbv iota. change (47 =? 47) with true. cbv iota.
+  rewrite (block_comment_reads rs PNone [] rest H). reflexivity. Qed.
+
+Definition follow (t : tree) (R : inp) : Prop := wsd R /\ (is_lc t = true -> exists R', R = 10 :: R').
+Definition strip (p : bool) (s : inp) : inp := if p then tl s else s.
+
+Lemma not_ws_range c : (48 <= c <= 57 \/ c = 45) -> is_ws c = false.
+Proof. unfold is_ws. lia. Qed.
+
+Lemma rp_head t : wf t -> forall ind, exists c r, rp ind t = c :: r /\ is_ws c = false.
+Proof.
+  induction t using tree_induction; intros Hwf ind; unfold rp in *; cbn [gp].
+  - eexists _, _. split; [reflexivity|reflexivity].
+  - destruct b; eexists _, _; split; reflexivity.
+  - destruct (int_text_head false n) as [c [r [E Hc]]]. exists c, r. split; [exact E|apply not_ws_range, Hc].
+  - destruct (int_text_head true n) as [c [r [E Hc]]]. exists c, r. split; [exact E|apply not_ws_range, Hc].
+  - cbn [wf] in Hwf. rewrite (z_text_int z Hwf).
+    destruct (int_text_head (z <? 0)%Z (Z.abs_N z)) as [c [r [E Hc]]]. exists c, r. split; [exact E|apply not_ws_range, Hc].
+  - eexists _, _. split; reflexivity.
+  - destruct m; eexists _, _; split; reflexivity.
+  - cbn [wf] in Hwf. destruct Hwf as [Hk _]. destruct (IHt1 Hk ind) as [c [r [E Hc]]]. rewrite E. cbn [app].
+    eexists _, _. split; [reflexivity|exact Hc].
+  - eexists _, _. split; reflexivity.
+  - eexists _, _. split; reflexivity.
+Qed.
+
+Lemma rp_nows t : wf t -> forall ind R, nows (rp ind t ++ R).
+Proof. intros Hwf ind R. destruct (rp_head t Hwf ind) as [c [r [E Hc]]]. rewrite E. exact Hc. Qed.
+
+Section Items.
+  Variables (cc : N) (ct : tok).
+  Hypotheses (Hct : forall r, next_tok O (cc :: r) = Some (ct, r, O)) (Hcc : is_ws cc = false).
+  Variables (ind k : N) (R : inp).
+  Hypothesis Hk : 0 < k.
+
+  Definition items_text (l : list tree) : inp := flat_map (fun x => nl k ++ rp k x) l ++ nl ind ++ cc :: R.
+
+  Lemma items_text_head l : exists X, items_text l = 10 :: X.
+  Proof. unfold items_text. destruct l; cbn [flat_map app nl]; eexists; reflexivity. Qed.
+
+  Lemma lexes_items l :
+    Forall (fun x => wf x /\ forall ind R, follow x R -> lexes (tk ind x) (rp ind x ++ R) (strip (is_lc x) R)) l ->
+    forall pend,
+    lexes (flat_map (fun x => TWs :: tk k x) l ++ cwp ind (pfin pend l) ++ [ct]) (strip pend (items_text l)) R.
+  Proof.
+    induction 1 as [|x l' [Hwf Hx] Hl IH]; intro pend.
+    - unfold items_text. cbn [flat_map app pfin]. destruct pend; cbn [strip].
+      + unfold nl. cbn [app tl]. unfold cwp. cbn [andb]. destruct (N.eqb_spec ind 0) as [E|E].
+        * rewrite E. unfold spaces. cbn [N.to_nat repeat app]. apply lexes_one; [apply Hct|cbn [length]; lia].
+        * cbn [app]. exists (cc :: R). split; [apply tok_spaces; [lia|exact Hcc]|].
+          split; [rewrite app_length, spaces_length; cbn [length]; lia|]. apply lexes_one; [apply Hct|cbn [length]; lia].
+      + unfold cwp. cbn [andb app]. exists (cc :: R). split; [apply tok_nl; exact Hcc|].
+        split; [unfold nl; cbn [app length]; rewrite app_length; cbn [length]; lia|]. apply lexes_one; [apply Hct|cbn [length]; lia].
+    - assert (Etext : items_text (x :: l') = nl k ++ rp k x ++ items_text l').
+      { unfold items_text. cbn [flat_map]. rewrite <- !app_assoc. reflexivity. }
+      assert (Epf : pfin pend (x :: l') = pfin (is_lc x) l') by (destruct l'; reflexivity).
+      rewrite Etext, Epf. cbn [flat_map]. rewrite <- app_assoc. cbn [app].
+      destruct (items_text_head l') as [X EX].
+      assert (Hfollow : follow x (items_text l')).
+      { rewrite EX. split; [reflexivity|]. intros _. exists X. reflexivity. }
+      assert (Hn : nows (rp k x ++ items_text l')) by (apply rp_nows, Hwf).
+      exists (rp k x ++ items_text l'). split; [|split].
+      + destruct pend; cbn [strip]; [unfold nl; cbn [app tl]; apply tok_spaces; assumption | apply tok_nl; assumption].
+      + destruct pend; cbn [strip]; unfold nl; cbn [app tl length]; rewrite !app_length, spaces_length; lia.
+      + eapply lexes_app; [apply Hx, Hfollow|]. apply IH.
+  Qed.
+End Items.
+
+Lemma lexes_tree t : wf t -> forall ind R, follow t R -> lexes (tk ind t) (rp ind t ++ R) (strip (is_lc t) R).
+Proof.
+  induction t using tree_induction; intros Hwf ind R [Hw Hlc]; unfold rp in *; cbn [gp tk is_lc strip].
+  - apply lexes_one; [reflexivity|unfold CteEnc.t_null; cbn [app length]; lia].
+  - destruct b; (apply lexes_one; [reflexivity|unfold CteEnc.t_true, CteEnc.t_false; cbn [app length]; lia]).
+  - apply lexes_one; [apply tok_int, Hw|]. destruct (int_text_head false n) as [c [r [E _]]]. rewrite E. cbn [app length]. rewrite app_length. lia.
+  - apply lexes_one; [apply tok_int, Hw|]. destruct (int_text_head true n) as [c [r [E _]]]. rewrite E. cbn [app length]. rewrite app_length. lia.
+  - cbn [wf] in Hwf. rewrite (z_text_int z Hwf). apply lexes_one; [apply tok_int, Hw|].
+    destruct (int_text_head (z <? 0)%Z (Z.abs_N z)) as [c [r [E _]]]. rewrite E. cbn [app length]. rewrite app_length. lia.
+  - cbn [wf] in Hwf. cbn [app]. rewrite <- app_assoc. cbn [app].
+    apply lexes_one; [apply tok_str, Hwf|]. cbn [length]. rewrite app_length. cbn [length]. lia.
+  - cbn [wf] in Hwf. destruct Hwf as [_ Hok]. destruct m; cbn [is_lc strip] in *.
+    + cbn [app]. rewrite <- app_assoc. cbn [app]. apply lexes_one; [apply tok_block_comment, Hok|].
+      cbn [length]. rewrite app_length. cbn [length]. lia.
+    + destruct (Hlc eq_refl) as [R' ->]. cbn [app tl]. apply lexes_one; [apply tok_line_comment, Hok|].
+      cbn [length]. rewrite app_length. cbn [length]. lia.
+  - cbn [wf] in Hwf. destruct Hwf as [Hk [Hv [Vk Vv]]].
+    assert (Lk : is_lc t1 = false) by (destruct t1; try reflexivity; discriminate).
+    assert (Lv : is_lc t2 = false) by (destruct t2; try reflexivity; discriminate).
+    rewrite <- !app_assoc. cbn [app].
+    eapply lexes_app.
+    { assert (F := IHt1 Hk ind (32 :: 61 :: 32 :: gp qbody (fun rs => rs) ind t2 ++ R)).
+      rewrite Lk in F. cbn [strip] in F. apply F. split; [reflexivity|]. rewrite Lk. discriminate. }
+    assert (Hn : nows (rp ind t2 ++ R)) by (apply rp_nows, Hv).
+    exists (61 :: 32 :: gp qbody (fun rs => rs) ind t2 ++ R). split; [reflexivity|]. split; [cbn [length]; lia|].
+    exists (32 :: gp qbody (fun rs => rs) ind t2 ++ R). split; [reflexivity|]. split; [cbn [length]; lia|].
+    exists (gp qbody (fun rs => rs) ind t2 ++ R). split; [|split; [cbn [length]; lia|]].
+    { change (32 :: gp qbody (fun rs => rs) ind t2 ++ R) with (spaces 1 ++ (rp ind t2 ++ R)). apply tok_spaces; [lia|exact Hn]. }
+    assert (F := IHt2 Hv ind R). rewrite Lv in F. cbn [strip] in F. apply F. split; [exact Hw|]. rewrite Lv. discriminate.
+  - apply wf_list in Hwf. destruct l as [|x l'].
+    + cbn [flat_map app]. exists (93 :: R). split; [reflexivity|]. split; [cbn [length]; lia|].
+      apply lexes_one; [reflexivity|cbn [length]; lia].
+    + cbv iota. set (l := x :: l') in *. cbn [app]. exists (items_text 93 ind (ind + 4) R l). split; [|split].
+      * unfold items_text, rp. rewrite <- !app_assoc. reflexivity.
+      * unfold items_text, rp. rewrite <- !app_assoc. cbn [app length]. lia.
+      * apply (lexes_items 93 TListE (fun r => eq_refl) eq_refl ind (ind + 4) R ltac:(lia) l) with (pend := false).
+        rewrite Forall_forall in *. intros y Hy. split; [apply Hwf, Hy|]. intros ind' R' F. apply H; [exact Hy|apply Hwf, Hy|exact F].
+  - apply wf_map in Hwf. destruct l as [|x l'].
+    + cbn [flat_map app]. exists (125 :: R). split; [reflexivity|]. split; [cbn [length]; lia|].
+      apply lexes_one; [reflexivity|cbn [length]; lia].
+    + cbv iota. set (l := x :: l') in *. cbn [app]. exists (items_text 125 ind (ind + 4) R l). split; [|split].
+      * unfold items_text, rp. rewrite <- !app_assoc. reflexivity.
+      * unfold items_text, rp. rewrite <- !app_assoc. cbn [app length]. lia.
+      * apply (lexes_items 125 TBraceE (fun r => eq_refl) eq_refl ind (ind + 4) R ltac:(lia) l) with (pend := false).
+        rewrite Forall_forall in *. intros y Hy. split; [apply Hwf, Hy|]. intros ind' R' F. apply H; [exact Hy|apply Hwf, Hy|exact F].
+Qed.
+
+(* ------------------------------------------------------------------ *)
+(** * From tokens to events *)
+
+Definition vhead (t : tok) : bool := match t with TVal _ | TListB | TMapB => true | _ => false end.
+
+Lemma tk_value_head t ind : is_value t = true -> exists t0 r, tk ind t = t0 :: r /\ vhead t0 = true.
+Proof. destruct t; intro H; try discriminate; cbn [tk]; eexists _, _; split; reflexivity. Qed.
+
+Lemma skip_seps_vhead t0 r : vhead t0 = true -> skip_seps (t0 :: r) = ([], t0 :: r, false).
+Proof. destruct t0; intro H; try discriminate; reflexivity. Qed.
+
+Lemma skip_seps_ws_vhead t0 r : vhead t0 = true -> skip_seps (TWs :: t0 :: r) = ([], t0 :: r, true).
+Proof. destruct t0; intro H; try discriminate; reflexivity. Qed.
+
+Lemma p_items_ws f k n T res : p_items f k n T = Some res -> p_items f k n (TWs :: T) = Some res.
+Proof.
+  destruct f as [|f]; [discriminate|]. cbn [p_items skip_seps].
+  destruct (skip_seps T) as [[cs ts1] sep]. destruct ts1 as [|t r]; [discriminate|].
+  destruct (closes k t); [exact (fun H => H)|].
+  destruct ((0 <? n)%nat && negb sep); [discriminate|]. rewrite andb_false_r. exact (fun H => H).
+Qed.
+
+Lemma p_items_com f k n m b T es r : p_items f k n T = Some (es, r) -> p_items f k n (TComment m b :: T) = Some (EComment m b :: es, r).
+Proof.
+  destruct f as [|f]; [discriminate|]. cbn [p_items skip_seps].
+  destruct (skip_seps T) as [[cs ts1] sep]. destruct ts1 as [|t r0]; [discriminate|].
+  destruct (closes k t).
+  - destruct (count_ok k n); [|discriminate]. intro H. inversion H; subst. reflexivity.
+  - destruct ((0 <? n)%nat && negb sep); [discriminate|]. rewrite andb_false_r.
+    destruct (p_value f (t :: r0)) as [[es1 ts2]|]; [|discriminate].
+    destruct (p_items f k (S n) ts2) as [[es2 ts3]|]; [|discriminate].
+    intro H. inversion H; subst. reflexivity.
+Qed.
+
+Lemma p_pairs_ws f first T res : p_pairs f first T = Some res -> p_pairs f first (TWs :: T) = Some res.
+Proof.
+  destruct f as [|f]; [discriminate|]. cbn [p_pairs skip_seps].
+  destruct (skip_seps T) as [[cs ts1] sep]. destruct ts1 as [|t r]; [discriminate|].
+  destruct t; try exact (fun H => H);
+    (destruct (negb first && negb sep); [discriminate|]; rewrite andb_false_r; exact (fun H => H)).
+Qed.
+
+Lemma p_pairs_com f first m b T es r : p_pairs f first T = Some (es, r) -> p_pairs f first (TComment m b :: T) = Some (EComment m b :: es, r).
+Proof.
+  destruct f as [|f]; [discriminate|]. cbn [p_pairs skip_seps].
+  destruct (skip_seps T) as [[cs ts1] sep]. destruct ts1 as [|t r0]; [discriminate|].
+  assert (G : forall X : option (list event * list tok),
+            match X with Some (es2, ts7) => Some (cs ++ es2, ts7) | None => None end = Some (es, r) ->
+            match X with Some (es2, ts7) => Some ((EComment m b :: cs) ++ es2, ts7) | None => None end = Some (EComment m b :: es, r)).
+  { intros [[a c]|] H; [|discriminate]. inversion H; subst. reflexivity. }
+  destruct t;
+    try (destruct (negb first && negb sep); [discriminate|]; rewrite andb_false_r;
+         match goal with |- context [p_value f ?ts] => destruct (p_value f ts) as [[kes ts2]|]; [|discriminate] end;
+         destruct (skip_seps ts2) as [[cs2 ts3] s2]; destruct ts3 as [|t3 ts4]; [discriminate|];
+         destruct t3; try discriminate;
+         destruct (skip_seps ts4) as [[cs3 ts5] s3];
+         destruct (p_value f ts5) as [[ves ts6]|]; [|discriminate];
+         destruct (p_pairs f false ts6) as [[es2 ts7]|]; [|discriminate];
+         intro H; inversion H; subst; reflexivity).
+  intro H. inversion H; subst. reflexivity.
+Qed.
+
+Definition parses (t : tree) : Prop :=
+  wf t -> is_value t = true -> forall ind f rest, (length (tk ind t) < f)%nat ->
+  p_value f (tk ind t ++ rest) = Some (rd_events t, rest).
+
+Definition item_toks (i : N) (l : list tree) : list tok := flat_map (fun x => TWs :: tk i x) l.
+
+Lemma p_items_value_step x i T f n es rest :
+  parses x -> wf x -> is_value x = true -> (length (tk i x) < f)%nat ->
+  p_items f CList (S n) T = Some (es, rest) ->
+  p_items (S f) CList n (TWs :: tk i x ++ T) = Some (rd_events x ++ es, rest).
+Proof.
+  intros Hx Hwf Hv Hf HT.
+  destruct (tk_value_head x i Hv) as [t0 [r0 [E0 V0]]].
+  assert (Hp := Hx Hwf Hv i f T Hf).
+  cbn [p_items]. rewrite E0 in *. cbn [app] in *. rewrite (skip_seps_ws_vhead _ _ V0).
+  assert (Hcl : closes CList t0 = false) by (destruct t0; try discriminate; reflexivity).
+  rewrite Hcl. rewrite andb_false_r. rewrite Hp, HT. reflexivity.
+Qed.
+
+Lemma p_items_list i l :
+  Forall (fun x => (wf x /\ is_pair x = false) /\ parses x) l ->
+  forall cw, cw = [] \/ cw = [TWs] ->
+  forall f n rest, (length (item_toks i l ++ cw ++ [TListE]) < f)%nat ->
+  p_items f CList n (item_toks i l ++ cw ++ TListE :: rest) = Some (flat_map rd_events l ++ [EEnd], rest).
+Proof.
+  induction 1 as [|x l' [[Hwf Hnp] Hx] Hl IH]; intros cw Hcw f n rest Hf.
+  - cbn [item_toks flat_map app]. destruct f as [|f]; [cbn in Hf; lia|].
+    destruct Hcw as [-> | ->]; reflexivity.
+  - unfold item_toks in *. cbn [flat_map] in *. rewrite <- !app_assoc in *. cbn [app] in *.
+    cbn [length] in Hf. rewrite !app_length in Hf. cbn [length] in Hf.
+    destruct (is_value x) eqn:V.
+    + destruct f as [|f]; [lia|]. apply p_items_value_step; try assumption; [lia|].
+      apply (IH cw Hcw). rewrite !app_length. cbn [length]. lia.
+    + destruct x; try discriminate.
+      cbn [tk app rd_events]. apply p_items_ws, p_items_com. apply (IH cw Hcw).
+      rewrite !app_length. cbn [length]. cbn [tk length] in Hf. lia.
+Qed.
+
+Lemma p_pairs_pair_step k v i T f first es rest :
+  parses k -> parses v -> wf k -> wf v -> is_value k = true -> is_value v = true ->
+  (length (tk i k) < f)%nat -> (length (tk i v) < f)%nat ->
+  p_pairs f false T = Some (es, rest) ->
+  p_pairs (S f) first (TWs :: tk i k ++ TWs :: TEq :: TWs :: tk i v ++ T) = Some (rd_events k ++ rd_events v ++ es, rest).
+Proof.
+  intros Pk Pv Wk Wv Vk Vv Fk Fv HT.
+  destruct (tk_value_head k i Vk) as [t0 [r0 [E0 V0]]].
+  destruct (tk_value_head v i Vv) as [t1 [r1 [E1 V1]]].
+  assert (Hk := Pk Wk Vk i f (TWs :: TEq :: TWs :: tk i v ++ T) Fk).
+  assert (Hv := Pv Wv Vv i f T Fv).
+  cbn [p_pairs]. rewrite E0 in *. cbn [app] in *. rewrite (skip_seps_ws_vhead _ _ V0).
+  rewrite andb_false_r.
+  assert (Hm : forall (A : Type) (a b : A) ,
+            match t0 :: r0 ++ TWs :: TEq :: TWs :: tk i v ++ T with
+            | [] => a | TBraceE :: _ => a | _ => b end = b).
+  { intros. destruct t0; try discriminate; reflexivity. }
+  destruct t0; try discriminate V0;
+    (rewrite Hk; cbn [skip_seps]; rewrite E1 in *; cbn [app] in *; rewrite (skip_seps_vhead _ _ V1);
+     rewrite Hv, HT; reflexivity).
+Qed.
+
+Lemma p_pairs_map i l :
+  Forall (fun x => (wf x /\ is_value x = false) /\ (forall k v, x = VPair k v -> parses k /\ parses v)) l ->
+  forall cw, cw = [] \/ cw = [TWs] ->
+  forall f first rest, (length (item_toks i l ++ cw ++ [TBraceE]) < f)%nat ->
+  p_pairs f first (item_toks i l ++ cw ++ TBraceE :: rest) = Some (flat_map rd_events l ++ [EEnd], rest).
+Proof.
+  induction 1 as [|x l' [[Hwf Hnv] Hx] Hl IH]; intros cw Hcw f first rest Hf.
+  - cbn [item_toks flat_map app]. destruct f as [|f]; [cbn in Hf; lia|].
+    destruct Hcw as [-> | ->]; reflexivity.
+  - unfold item_toks in *. cbn [flat_map] in *. rewrite <- !app_assoc in *. cbn [app] in *.
+    destruct x; try discriminate.
+    + cbn [tk app rd_events] in *. apply p_pairs_ws, p_pairs_com. apply (IH cw Hcw).
+      cbn [length] in Hf. lia.
+    + destruct (Hx x1 x2 eq_refl) as [P1 P2]. cbn [wf] in Hwf. destruct Hwf as [W1 [W2 [V1 V2]]].
+      cbn [tk rd_events] in *. rewrite <- !app_assoc in *. cbn [app] in *.
+      cbn [length] in Hf. repeat (rewrite app_length in Hf; cbn [length] in Hf).
+      destruct f as [|f]; [lia|]. apply p_pairs_pair_step; try assumption; try lia.
+      apply (IH cw Hcw). repeat (rewrite app_length; cbn [length]). lia.
+Qed.
+
+Definition parses2 (t : tree) : Prop := parses t /\ (forall k v, t = VPair k v -> parses k /\ parses v).
+
+Lemma cw_cases ind (l : list tree) :
+  (match l with [] => [] | _ => cwp ind (pfin false l) end) = [] \/ (match l with [] => [] | _ => cwp ind (pfin false l) end) = [TWs].
+Proof. destruct l; [left; reflexivity|]. unfold cwp. destruct (_ && _); [left|right]; reflexivity. Qed.
+
+Lemma parses_all t : parses2 t.
+Proof.
+  induction t using tree_induction; (split; [|try (intros k0 v0 E; discriminate E)]);
+    try (intros Hwf Hv ind f rest Hf; first [cbn in Hv; discriminate Hv | destruct f as [|f]; [cbn in Hf; lia|]; reflexivity]).
+  - intros k0 v0 E. inversion E; subst. split; [apply IHt1|apply IHt2].
+  - (* list *)
+    intros Hwf Hv ind f rest Hf.
+    apply wf_list in Hwf. cbn [tk rd_events] in *. destruct f as [|f]; [cbn in Hf; lia|].
+    cbn [app p_value]. cbn [length] in Hf. rewrite <- !app_assoc. cbn [app].
+    fold (item_toks (ind + 4) l) in *. rewrite (p_items_list (ind + 4) l).
+    + reflexivity.
+    + rewrite Forall_forall in *. intros x Hx. split; [apply Hwf, Hx|apply H, Hx].
+    + apply cw_cases.
+    + lia.
+  - (* map *)
+    intros Hwf Hv ind f rest Hf.
+    apply wf_map in Hwf. cbn [tk rd_events] in *. destruct f as [|f]; [cbn in Hf; lia|].
+    cbn [app p_value]. cbn [length] in Hf. rewrite <- !app_assoc. cbn [app].
+    fold (item_toks (ind + 4) l) in *. rewrite (p_pairs_map (ind + 4) l).
+    + reflexivity.
+    + rewrite Forall_forall in *. intros x Hx. split; [apply Hwf, Hx|apply H, Hx].
+    + apply cw_cases.
+    + lia.
+Qed.
+
+(* ------------------------------------------------------------------ *)
+(** * The reader on the encoder's layout *)
+
+Lemma lex_nil f idx : lex f idx [] = Some [].
+Proof. destruct f; reflexivity. Qed.
+
+Lemma value_not_lc t : is_value t = true -> is_lc t = false.
+Proof. destruct t; try reflexivity; discriminate. Qed.
+
+Theorem read_pp_doc t : wf t -> is_value t = true -> cte_read (pp_doc t) = Some (document (rd_events t)).
+Proof.
+  intros Hwf Hv. unfold cte_read, pp_doc.
+  rewrite !runes_ascii_cons by lia. rewrite runes_ascii_app by apply ascii_nl.
+  rewrite <- (app_nil_r (pp 0 t)). rewrite runes_pp by exact Hwf. rewrite runes_nil.
+  cbn [read_runes]. change ((lower 99 =? 99) && ((48 =? 48) || (48 =? 49))) with true. cbv iota.
+  assert (HL : lexes (TWs :: tk 0 t) (nl 0 ++ rp 0 t ++ []) []).
+  { exists (rp 0 t ++ []). split; [apply tok_nl, rp_nows, Hwf|]. split; [unfold nl; cbn [app length]; rewrite !app_length; lia|].
+    assert (F := lexes_tree t Hwf 0 []). rewrite (value_not_lc t Hv) in F. apply F. split; [exact I|]. intro Hc. rewrite (value_not_lc t Hv) in Hc. discriminate Hc. }
+  assert (Hlen := lexes_length _ _ _ HL). cbn [length] in Hlen.
+  assert (Hfuel : S (length (nl 0 ++ rp 0 t ++ [])) = (length (TWs :: tk 0 t) + (S (length (nl 0 ++ rp 0 t ++ [])) - length (TWs :: tk 0 t)))%nat)
+    by (cbn [length]; lia).
+  rewrite Hfuel, (lex_lexes _ _ _ HL), lex_nil. cbn [option_map]. rewrite app_nil_r.
+  destruct (tk_value_head t 0 Hv) as [t0 [r0 [E0 V0]]].
+  assert (Hp := proj1 (parses_all t) Hwf Hv 0 (2 * length (tk 0 t) + 3)%nat [] ltac:(lia)).
+  rewrite app_nil_r in Hp.
+  replace (2 * length (tk 0 t) + 4)%nat with (S (2 * length (tk 0 t) + 3)) by lia.
+  cbn [p_top]. rewrite E0 in *. rewrite (skip_seps_vhead _ _ V0).
+  destruct t0; try discriminate V0; rewrite Hp; reflexivity.
+Qed.
